@@ -6,16 +6,40 @@
                    observed "a mutating storage operation was issued between the start of the call and the end
                    of the drain that follows it") must satisfy: model outcome = observed outcome (a model
                    outcome [Unspecified] accepts anything) and observed mutation -> the model's mutation log
-                   grew over the call and the drain of the DB it addressed. *)
-From GL Require Import Store.Lifecycle.
-From Coq Require Import String List NArith Bool.
+                   grew over the call and the drain of the DB it addressed.
+   The file storage (Store/FileStorage.v against leveldb/storage/file_storage.go; byte strings travel as hex):
+     KGen ty num gen old hasold : fsGenName / fsGenOldName / fsHasOldName of the descriptor, and fsParseName
+                   of both names gives the descriptor back.
+     KParse name ok ty num : fsParseName of an arbitrary (adversarial) name.
+     KDir ro pre res ty num post : a real directory holding exactly [pre] (LOG / LOG.old contents are replaced
+                   by one byte: "B" above 1 MiB, else "S"), storage.OpenFile(dir, ro) + GetMeta: result class
+                   (0 descriptor, 1 os.ErrNotExist, 2 ErrCorrupted), the descriptor, and the directory afterwards.
+     KOps kind pre ty num ops : the mutating system calls observed with strace during SetMeta(fd) (kind 0) or a
+                   read-write GetMeta (kind 1) on a directory holding [pre], in order, LOG traffic excluded.
+     KCrash kind pre m0 ty num k mask sel img res rty rnum : [img] is the crash image (mask / sel) of the model after
+                   the first k operations of set_meta (ty,num) (kind 0) or of the repair of a read-write GetMeta
+                   (kind 1) from [pre]; the real read-only GetMeta on a directory
+                   holding [img] answered (res, rty, rnum); the model must produce the same image and the same
+                   answer, and the answer must be the old manifest number m0 or the new one.
+     KLife exists steps : OpenFile / Lock / Unlock / Close / guarded methods on one directory: error classes. *)
+From GL Require Import Base.Bytes Store.Lifecycle Store.FileStorage.
+From Coq Require Import String List NArith ZArith Bool.
 Import ListNotations.
 
 Inductive kstep := KS (c : call) (obs : N) (mut : bool).
 
+Inductive kfsop := KOp (code : N) (a b : string).
+
 Inductive c18case :=
 | KEnum (names : list string)
-| KSeq (has : bool) (steps : list kstep).
+| KSeq (has : bool) (steps : list kstep)
+| KGen (ty : N) (num : Z) (gen old : string) (hasold : bool)
+| KParse (name : string) (ok : bool) (ty : N) (num : Z)
+| KDir (ro : bool) (pre : list (string * string)) (res ty : N) (num : Z) (post : list (string * string))
+| KOps (kind : N) (pre : list (string * string)) (ty : N) (num : Z) (ops : list kfsop)
+| KCrash (kind : N) (pre : list (string * string)) (m0 : Z) (ty : N) (num : Z) (k : N) (mask : list bool) (sel : list (N * N))
+         (img : list (string * string)) (res rty : N) (rnum : Z)
+| KLife (dirx : bool) (steps : list (fcall * N)).
 
 Definition target (s : state) (c : call) : nat :=
   match c with
@@ -39,10 +63,96 @@ Definition model_names : list string := map api_name all_api.
 
 Definition subset (a b : list string) : bool := forallb (fun x => existsb (String.eqb x) b) a.
 
+(* ---- file storage *)
+
+Definition mkview (l : list (string * string)) : view := map (fun p => (unhex (fst p), unhex (snd p))) l.
+
+Definition view_sub (a b : view) : bool :=
+  forallb (fun nc => match lookup b (fst nc) with Some c => beq c (snd nc) | None => false end) a.
+
+Definition view_eqb (a b : view) : bool :=
+  Nat.eqb (List.length a) (List.length b) && view_sub a b && view_sub b a.
+
+Definition fd_matches (o : option fdesc) (ok : bool) (ty : N) (num : Z) : bool :=
+  match o with
+  | Some fd => ok && (ftype_code (fd_type fd) =? ty)%N && (fd_num fd =? num)%Z
+  | None => negb ok
+  end.
+
+Definition gres_matches (r : gresult) (res ty : N) (num : Z) : bool :=
+  match r with
+  | GOk fd => (res =? 0)%N && (ftype_code (fd_type fd) =? ty)%N && (fd_num fd =? num)%Z
+  | GErr GNotExist => (res =? 1)%N
+  | GErr GCorrupted => (res =? 2)%N
+  end.
+
+Definition kop_of (o : fsop) : N * bytes * bytes :=
+  match o with
+  | OCreate n => (0%N, n, [])
+  | OWrite n d => (1%N, n, d)
+  | OFsync n => (2%N, n, [])
+  | ORename a b => (3%N, a, b)
+  | OUnlink n => (4%N, n, [])
+  | OSyncDir => (5%N, [], [])
+  end.
+
+Fixpoint ops_match (m : list fsop) (o : list kfsop) : bool :=
+  match m, o with
+  | [], [] => true
+  | x :: m', KOp c a b :: o' =>
+      let '(c', a', b') := kop_of x in
+      (c =? c')%N && beq (unhex a) a' && beq (unhex b) b' && ops_match m' o'
+  | _, _ => false
+  end.
+
+Definition sel_of (l : list (N * N)) (i : N) : option nat :=
+  match find (fun p => (fst p =? i)%N) l with
+  | Some p => Some (N.to_nat (snd p))
+  | None => None
+  end.
+
+Fixpoint run_life (p : proc) (l : list (fcall * N)) : bool :=
+  match l with
+  | [] => true
+  | (c, code) :: l' => let '(p', e, _) := fstep p c in (serr_code e =? code)%N && run_life p' l'
+  end.
+
 Definition run_case (c : c18case) : bool :=
   match c with
   | KEnum names => subset names model_names && subset model_names names
   | KSeq has steps => run_seq (init_state has [] 1%N) steps
+  | KGen ty num gen old hasold =>
+      match ftype_of_code ty with
+      | None => false
+      | Some t =>
+          let fd := FD t num in
+          beq (gen_name fd) (unhex gen) && beq (gen_old_name fd) (unhex old) && Bool.eqb (has_old_name fd) hasold &&
+          fd_matches (parse_name (unhex gen)) true ty num && fd_matches (parse_name (unhex old)) true ty num
+      end
+  | KParse name ok ty num => fd_matches (parse_name (unhex name)) ok ty num
+  | KDir ro pre res ty num post =>
+      let '(r, v) := get_meta ro (open_file_view ro (mkview pre)) in
+      gres_matches r res ty num && view_eqb v (mkview post)
+  | KOps kind pre ty num ops =>
+      let v := mkview pre in
+      match ftype_of_code ty with
+      | None => false
+      | Some t =>
+          ops_match (if (kind =? 0)%N then set_meta_ops v (FD t num) else snd (get_meta_ops false v)) ops
+      end
+  | KCrash kind pre m0 ty num k mask sel img res rty rnum =>
+      let v := mkview pre in
+      match ftype_of_code ty with
+      | None => false
+      | Some t =>
+          let ops := if (kind =? 0)%N then set_meta_ops v (FD t num) else snd (get_meta_ops false v) in
+          let s := fapply_all (fs_of_view v) (firstn (N.to_nat k) ops) in
+          let im := image_view mask (sel_of sel) s in
+          view_eqb im (mkview img) &&
+          gres_matches (get_meta_result im) res rty rnum &&
+          (res =? 0)%N && (rty =? 1)%N && ((rnum =? m0)%Z || (rnum =? num)%Z)
+      end
+  | KLife dirx steps => run_life (PR dirx OsFree []) steps
   end.
 
 Fixpoint mism_from {A} (f : A -> bool) (i : N) (l : list A) : list N :=
